@@ -204,3 +204,18 @@ Print Assumptions C17_pipeline_row_renaming.
 Print Assumptions C17_build_is_constructors_then_sets.
 Print Assumptions C17_table_order_pipeline_invariant.
 Print Assumptions C17_table_order_nonvacuous.
+
+(** Source tie (regenerated on every run): the order keys of the matcher depend on the input only through the instant and the
+    row.  Read from accounting_engine.py, abstract_accounting_method.py and the method plugins as data (Model/GeneratedTie.v,
+    fragment avl_key; interpreter Model/AvlKeyGen.v): the AVL key of a lot ranks as (UTC instant in microseconds, row) - the
+    offset a timestamp was written with and everything below the second both count the way the model says -, the lookup key as
+    (instant of the event, 10^12 - 1), and the heap key of every feature-based method, with the NamedTuple's field order
+    applied, is [meth_sort_key] (ties on the first component broken by acquisition time, then row).
+    Proofs/AvlKeyGenProofs.v. *)
+From RP2V Require Import Model.GeneratedTie Model.AvlKeyGen Proofs.AvlKeyGenProofs.
+Theorem C17_source_tie_order_keys :
+  (forall l, ak_inserted l = Some (utc_us (i_ts l), i_row l)) /\
+  (forall te, ak_looked_up te = Some (utc_us te, ak_max_num)) /\
+  (forall m l, meth_kind m = Feature -> sk_key_gen m l = Some (meth_sort_key m l)).
+Proof. exact order_keys_gen_depend_on_instant_and_row. Qed.
+Print Assumptions C17_source_tie_order_keys.
